@@ -30,6 +30,7 @@ def export_world():
     from pyvc.interp import LocalSet
     w.builtin_models[set] = lambda it, xs=(): LocalSet(it.iterate(xs))
     w.builtin_models[frozenset] = lambda it, xs=(): LocalSet(it.iterate(xs))
+    w.sym_set_display = lambda it, items: LocalSet(items)          # {x for ...} / {x, y} over value tokens: a set the code owns
     w.builtin_models[str] = lambda it, x='': x if isinstance(x, str) else str(x)
     def hook(it, what, args):
         if what == ('contains',):
